@@ -107,15 +107,16 @@ def planned_n(spec):
     return 0
 
 
-def gen_model(rng, vars_, closed_p=0.7, nout=None, deeponet=False):
+def gen_model(rng, vars_, closed_p=0.7, nout=None, deeponet=False, outs=None):
     in_order = [v["name"] for v in vars_]
     rng.shuffle(in_order)
     no = int(rng.integers(1, 3)) if nout is None else nout
     names = list(OUT_NAMES)
     rng.shuffle(names)
-    outs = []
-    for i in range(no):
-        outs.append({"name": names[i], "dim": int(rng.choice([1, 1, 2, 3])) if i == 0 else int(rng.choice([1, 2]))})
+    if outs is None:
+        outs = []
+        for i in range(no):
+            outs.append({"name": names[i], "dim": int(rng.choice([1, 1, 2, 3])) if i == 0 else int(rng.choice([1, 2]))})
     m = {"in_order": in_order, "outs": outs}
     if deeponet:
         m.update(type="deeponet", hidden=[int(rng.integers(3, 6))], seed=int(rng.integers(0, 2 ** 31)))
@@ -533,6 +534,183 @@ def gen_group_case(rng):
     g["conds"] = conds
     g["data"], g["params"], g["defaults"] = data, params, defaults
     g["share"] = share
+    g["build_order"] = [int(i) for i in rng.permutation(n)]
+    g["eval_orders"] = [[int(i) for i in rng.permutation(n)] for _ in range(g["rounds"])]
+    return g
+
+
+# ---------------------------------------------------------------------------------------------
+# C14: conditions on ONE static sampler object with data functions under the same key but different bodies
+# ---------------------------------------------------------------------------------------------
+
+def gen_samekey_group(rng):
+    n = int(rng.choice([2, 2, 3, 4]))
+    kn = ["pinn", "single", "mean", "pideeponet"]
+    kinds = [kn[int(rng.choice(4, p=[0.5, 0.2, 0.15, 0.15]))] for _ in range(n)]
+    vars_ = gen_vars(rng, 1, 3, maxdim=3 if "pideeponet" in kinds else 5)
+    names = [v["name"] for v in vars_]
+    g = {"kind": "group", "mode": "samekey", "seed": int(rng.integers(0, 2 ** 31)),
+         "rounds": int(rng.integers(2, 5 if CFG["calls_max"] <= 5 else 7)), "vars": vars_}
+    sampler = gen_sampler(rng, vars_, names, cap=60, static=True)
+    sampler["interval"] = None          # never resampled: the number of uses by other conditions does not matter
+    sampler["share"] = "S0"
+    _seed_samplers(rng, sampler["a"])
+    nd = int(rng.integers(1, 3))
+    params = _fill_params(rng, gen_params(rng, 0.3))
+    defaults = {"cdef": np.round(rng.uniform(0.5, 1.5, size=int(rng.integers(1, 3))), 3).tolist()} \
+        if rng.random() < 0.3 else {}
+    model = gen_model(rng, vars_)
+    first = None
+    conds = []
+    for i, k in enumerate(kinds):
+        data = []
+        for j in range(nd):
+            if first is not None and rng.random() < 0.2:
+                data.append(first[j])                       # the very same function under the same key
+            else:
+                m = int(rng.integers(1, len(vars_) + 1))
+                idx = list(rng.permutation(len(vars_))[:m])
+                data.append(D.gen_data_fn(rng, DATA_NAMES[j], int(rng.choice([1, 1, 2, 3])), [vars_[q] for q in idx]))
+        if first is None:
+            first = data
+        preset = {"vars": vars_, "data": data, "params": params, "defaults": defaults}
+        if k != "pideeponet" and rng.random() < 0.5:
+            preset["model"] = model
+        c = gen_pideeponet_case(rng, preset) if k == "pideeponet" else gen_sampler_case(rng, k, preset)
+        c["name"] = "cond%d_%s" % (i, k)
+        c["sampler"] = dict(sampler)
+        conds.append(c)
+    g["conds"] = conds
+    g["data"], g["params"], g["defaults"] = [], params, defaults
+    g["share"] = {"dict": False, "model": bool(rng.random() < 0.5), "param": bool(rng.random() < 0.5),
+                  "defaults": bool(rng.random() < 0.7), "functions": True}
+    g["build_order"] = [int(i) for i in rng.permutation(n)]
+    g["eval_orders"] = [[int(i) for i in rng.permutation(n)] for _ in range(g["rounds"])]
+    return g
+
+
+# ---------------------------------------------------------------------------------------------
+# C14: user-supplied (already wrapped) function objects with declared defaults, shared by conditions whose samplers
+# provide different variable sets
+# ---------------------------------------------------------------------------------------------
+
+def _swap_kind(fac, var):
+    """the same residual body on a sampler that does not provide `var`: its factors read the declared default"""
+    if fac[0] == "coord" and fac[1] == var:
+        return ["dflt", fac[1], fac[2], fac[3]]
+    if fac[0] == "sin":
+        return ["sin", _swap_kind(fac[1], var)]
+    return list(fac)
+
+
+def gen_varsets_group(rng):
+    n = int(rng.choice([2, 2, 3, 4]))
+    bname = str(rng.choice(["x", "y", "z"]))
+    ename = str(rng.choice(["t", "k"]))
+
+    def mkvar(name, dim):
+        lo = round(float(rng.uniform(-1.0, 0.5)), 2)
+        return {"name": name, "dim": dim, "dom": str(rng.choice(["rect", "circle"])), "lo": lo,
+                "hi": round(lo + float(rng.uniform(0.8, 2.0)), 2)}
+    base = mkvar(bname, int(rng.choice([1, 1, 2])))
+    extra = mkvar(ename, 1)
+    vfull, vbase = [base, extra], [base]
+    if rng.random() < 0.5:
+        vfull = [extra, base]
+    full = [bool(rng.random() < 0.5) for _ in range(n)]
+    full[int(rng.integers(0, n))] = True
+    if all(full):
+        full[int(rng.integers(0, n))] = False
+    tdef = [round(float(rng.uniform(extra["lo"], extra["hi"])), 3)]
+    g = {"kind": "group", "mode": "varsets", "seed": int(rng.integers(0, 2 ** 31)),
+         "rounds": int(rng.integers(2, 5 if CFG["calls_max"] <= 5 else 7)), "vars": vfull}
+    mfull = gen_model(rng, vfull)
+    mbase = gen_model(rng, vbase, outs=mfull["outs"])
+    outs = mfull["outs"]
+    # data functions: f(base, extra=default) and sometimes g(base); handed over as UserFunction objects most of the time
+    data = [D.gen_data_fn(rng, "f", int(rng.choice([1, 1, 2])), [base, extra], defaults={ename: tdef},
+                          wrapped=bool(rng.random() < 0.8))]
+    if rng.random() < 0.5:
+        data.append(D.gen_data_fn(rng, "g", int(rng.choice([1, 2])), [base], wrapped=bool(rng.random() < 0.5)))
+    params = _fill_params(rng, gen_params(rng, 0.3))
+    defaults = {ename: tdef}
+    if rng.random() < 0.3:
+        defaults["cdef"] = np.round(rng.uniform(0.5, 1.5, size=int(rng.integers(1, 3))), 3).tolist()
+    # one residual body for all conditions (same parameter names); no derivative w.r.t. the defaulted variable
+    at = atoms_for(vfull, outs, data, params, {k: v for k, v in defaults.items() if k != ename})
+    deriv = []
+    for o in at["out"]:
+        for x in at["coord"]:
+            if x[1] == ename:
+                continue
+            deriv.append(["d1", o[1], o[2], o[3], x[1], x[2], x[3]])
+            deriv.append(["d2", o[1], o[2], o[3], x[1], x[2], x[3]])
+    must = one_per_object(at["data"]) + one_per_object(at["par"]) + one_per_object(at["dflt"])
+    must.append(["coord", bname, 0, ""])
+    uses_extra = bool(rng.random() < 0.75)
+    if uses_extra:
+        must.append(["coord", ename, 0, ""])
+    else:
+        at["coord"] = [a for a in at["coord"] if a[1] != ename]
+    res_full = gen_residual(rng, at, int(rng.integers(1, 4)), must, deriv if rng.random() < 0.6 else [])
+    used = sorted(D.residual_args(res_full))
+    nd_ = [a for a in used if a[0] != "dflt" and not (a[0] == "coord" and a[1] == ename)]
+    idx = rng.permutation(len(nd_))
+    tail = [a for a in used if a[0] == "coord" and a[1] == ename] + [a for a in used if a[0] == "dflt"]
+    sig_full = [list(nd_[i]) for i in idx] + [list(a) for a in tail]
+    res_base = [[{"c": t["c"], "f": [_swap_kind(f, ename) for f in t["f"]]} for t in comp] for comp in res_full]
+    sig_base = [["dflt", a[1], a[2]] if (a[0] == "coord" and a[1] == ename) else list(a) for a in sig_full]
+    res_wrapped = bool(rng.random() < 0.7)
+    # an optional filter function flt(base, extra=default) on the leaves of the base variable
+    flt = None
+    if rng.random() < 0.4:
+        span = base["hi"] - base["lo"]
+        flt = {"var": bname, "comp": int(rng.integers(0, base["dim"])), "thr": round(base["lo"] + 0.15 * span, 3),
+               "dep": {"var": ename, "c": round(0.3 * span / max(abs(extra["lo"]), abs(extra["hi"]), 0.1), 3),
+                       "default": tdef},
+               "wrapped": bool(rng.random() < 0.8), "share": "F0"}
+    conds = []
+    n_common = int(rng.integers(3, 9))      # equal point counts: stale tensors of another condition broadcast silently
+    for i in range(n):
+        kind = str(rng.choice(["pinn", "single", "mean"], p=[0.6, 0.25, 0.15]))
+        c = {"kind": kind, "seed": int(rng.integers(0, 2 ** 31)), "calls": g["rounds"], "name": "cond%d_%s" % (i, kind),
+             "vars": vfull if full[i] else vbase, "model": mfull if full[i] else mbase,
+             "data": data, "params": params, "defaults": defaults,
+             "residual": res_full if full[i] else res_base,
+             "sigargs": sig_full if full[i] else sig_base,
+             "sig": [D.argname(a[1], a[2]) for a in sig_full], "res_wrapped": res_wrapped, "full": full[i]}
+        nb = n_common if rng.random() < 0.5 else int(rng.integers(3, 9))
+        lb = {"op": "leaf", "vars": [bname], "kind": str(rng.choice(["random", "grid"])), "n": nb}
+        if flt is not None and rng.random() < 0.8:
+            lb["filter"] = flt
+        if full[i]:
+            le = {"op": "leaf", "vars": [ename], "kind": str(rng.choice(["random", "grid"])), "n": int(rng.integers(2, 6))}
+            st = rng.random()
+            if st < 0.45:
+                sp = {"op": "prod", "a": lb, "b": le}
+            elif st < 0.75:
+                sp = {"op": "prod", "a": le, "b": lb}
+            else:
+                sp = {"op": "leaf", "vars": [bname, ename], "kind": "random",
+                      "n": n_common if rng.random() < 0.6 else int(rng.integers(4, 30))}
+                if "filter" in lb:
+                    sp["filter"] = flt
+        else:
+            sp = lb
+        _seed_samplers(rng, sp)
+        if rng.random() < 0.4:
+            sp = {"op": "static", "a": sp, "interval": None}
+        c["sampler"] = sp
+        if kind == "single":
+            c["error"] = str(rng.choice(D.ERRORS))
+            c["reduce"] = str(rng.choice(D.REDUCES))
+        if rng.random() < 0.5:
+            c["weight"] = round(float(rng.uniform(0.1, 5.0)), 3)
+        conds.append(c)
+    g["conds"] = conds
+    g["data"], g["params"], g["defaults"] = data, params, defaults
+    g["share"] = {"dict": bool(rng.random() < 0.6), "model": bool(rng.random() < 0.5), "param": bool(rng.random() < 0.5),
+                  "defaults": bool(rng.random() < 0.6), "functions": True, "residual": bool(rng.random() < 0.6)}
     g["build_order"] = [int(i) for i in rng.permutation(n)]
     g["eval_orders"] = [[int(i) for i in rng.permutation(n)] for _ in range(g["rounds"])]
     return g
